@@ -22,6 +22,7 @@ def fuzz(name, test, thorough="60s", **kw):
 
 PROPS = {}
 NOT_APPLICABLE = {}
+_NET = "[network]\ntimeout_seconds = 2\n"
 
 PROPS["C18"] = dict(
     pkg="c18",
@@ -105,10 +106,15 @@ PROPS["C14"] = dict(
     rule=("expression trees (depth <= 5) over the 14 style functions, concatenation and text leaves (with newlines, wide/combining "
           "characters), evaluated by the real style layer and by a cell-level reference semantics; per-character attributes compared "
           "exactly, attribute state required neutral at every line break and at the end; then 0..4 layout operations (Wrap, DumbWrap, "
-          "Pad, Indent, Snip) after each of which the visible cells with their attributes are compared again. Non-trivial: tree depth "
-          ">= 3 with a newline under >= 2 styles and at least one layout op. Distinct = distinct (tree, ops)."),
+          "Pad, Indent, Snip) after each of which the visible cells with their attributes are compared again; (Docs) documents in the "
+          "four markups inside posts and profiles, rendered as Render/String/Preview at widths 1..120; (Frames) every frame emitted "
+          "while C07's key histories are played — all required neutral at every line end. Non-trivial: tree depth >= 3 with a newline "
+          "under >= 2 styles and at least one layout op / document with links rendered narrower than its longest token / history "
+          "with more than three frames. Distinct = distinct case."),
     units=[
         rapid("Tree", "TestTree", 120000, 4000000),
+        rapid("Docs", "TestDocs", 6000, 200000),
+        rapid("Frames", "TestFrames", 800, 40000, shards=(8, 16), config_toml=_NET, timeout=dict(quick=600, thorough=3000)),
     ],
     manifest=dict(
         text=("Property-based testing against an SGR terminal-state emulator: generated style-function expression trees are compared "
@@ -126,9 +132,14 @@ PROPS["C16"] = dict(
     rule=("CenterVertically enumerated over every geometry: prefix and suffix of 0 (the empty string the UI passes) to 12 lines, "
           "centred text of 1..12 lines, heights 2..14 (thorough: up to 24 lines, heights 2..40); oracle: exact line count, centred "
           "block at row floor((h-c)/2), rows above = tail of the prefix, rows below = head of the suffix, blank padded; centred text "
-          "taller than the screen is cut to its first h lines. Non-trivial: centred text shorter than the height. Distinct = distinct geometry."),
+          "taller than the screen is cut to its first h lines. (Frames) every frame handed to the output callback while generated key "
+          "histories (C07's worlds and events, heights 2..50, widths 1..120, resizes between keys, all modes) are played: exactly "
+          "`height` lines; in settled states the highlighted block is contiguous and starts at row floor((h-c)/2), and in selection / "
+          "command mode the last line is the status line, exactly `width` cells. Non-trivial: geometry with centred text shorter than the "
+          "height / history that emitted more than three frames. Distinct = distinct geometry / (world, events)."),
     units=[
         enum("GeomEnum", "TestGeomEnum"),
+        rapid("Frames", "TestFrames", 1600, 60000, shards=(8, 16), config_toml=_NET, timeout=dict(quick=600, thorough=3000)),
     ],
     exhaustive_claim=["GeomEnum"],
     manifest=dict(
@@ -217,13 +228,18 @@ PROPS["C01"] = dict(
     rule=("(Items) ActivityStreams documents whose every string is drawn from a hostile source (raw C0/DEL/C1, ESC/CSI/OSC attack "
           "strings, numeric/hex/named character references for the same, invalid UTF-8) in all fields, attribute values, code spans, "
           "link destinations and media types; built with pub.New and everything reachable rendered with Name/String/Preview at widths "
-          "-5..200; (Render) hostile bodies in the four media types rendered directly. Oracle: an independent recogniser accepting only "
+          "-5..200; (Render) hostile bodies in the four media types rendered directly; (Net) raw HTTP responses whose status line, "
+          "Content-Type, Location, other headers and body carry the same hostile tokens, fetched by URL and by webfinger handle so the "
+          "bytes end up quoted in error items; (Frames) every frame the UI emits while generated key histories browse hostile worlds "
+          "(hostile names, handles, bodies; unfetchable URLs answering with hostile status lines and headers). Oracle: an independent recogniser accepting only "
           "printable runes, newlines and SGR sequences from servitor's own closed set with the configured colours. Non-trivial: the "
           "document carries at least one hostile token that survives JSON-level sanitising (character reference, attribute, markdown). "
           "Distinct = distinct (document, widths)."),
     units=[
         rapid("Items", "TestItems", 12000, 400000),
         rapid("Render", "TestRender", 20000, 800000),
+        rapid("Net", "TestNet", 4000, 160000, config_toml=_NET),
+        rapid("Frames", "TestFrames", 800, 40000, shards=(8, 16), config_toml=_NET, timeout=dict(quick=600, thorough=3000)),
         fuzz("Fuzz", "FuzzRender", "180s"),
     ],
     manifest=dict(
